@@ -169,7 +169,10 @@ func runC11(c *fw.Ctx) {
 			vm := numscript.VariablesMap{}
 			for k, v := range cs.Vars {
 				vm[k] = v
+				// entries the script does not declare (other spellings of the names, unrelated keys)
+				vm["$"+k] = "unrelated " + v
 			}
+			vm[""], vm["unused_extra"], vm["$"] = "x", "USD 1", "y"
 			before := fmt.Sprint(vm)
 			ss := real.NewStore(real.Static, cs.Balances, cs.Meta)
 			sb, sm := ss.StaticContent()
